@@ -72,6 +72,34 @@ func main() {
 }
 
 func doDump(p *core.Program, what string) {
+	if strings.HasPrefix(what, "absexec:") {
+		// absexec:<substring of function name>: the abstract executions of the matching functions
+		for _, fn := range p.Funcs {
+			if !strings.Contains(core.FnName(fn), what[8:]) {
+				continue
+			}
+			execs, complete := p.AbstractExecutions(fn)
+			fmt.Printf("== %s: %d executions complete=%v\n", core.FnName(fn), len(execs), complete)
+			for i := range execs {
+				fmt.Printf("-- exec %d: %s\n", i, p.DescribeExec(&execs[i]))
+			}
+		}
+		return
+	}
+	if what == "keybuilders" {
+		for _, fn := range p.Funcs {
+			if !strings.Contains(core.FnPkgPath(fn), "/types") || !strings.HasSuffix(fn.Name(), "Key") || fn.Signature.Results().Len() != 1 || fn.Signature.Results().At(0).Type().String() != "[]byte" {
+				continue
+			}
+			tb := core.NewTermBuilder(p)
+			for _, b := range fn.Blocks {
+				if ret, ok := b.Instrs[len(b.Instrs)-1].(*ssa.Return); ok {
+					fmt.Printf("%-60s %s\n", core.FnName(fn), tb.Term(ret.Results[0]))
+				}
+			}
+		}
+		return
+	}
 	switch what {
 	case "handlers":
 		hs, err := p.Handlers()
